@@ -115,3 +115,5 @@ theorem isPrefixOfB_iff (p s : Bytes) : isPrefixOfB p s = true ↔ p <+: s := by
     | nil => simp [isPrefixOfB]
     | cons b bs =>
       simp only [isPrefixOfB, Bool.and_eq_true, beq_iff_eq, ih, List.cons_prefix_cons]
+
+def isDigit (b : UInt8) : Bool := 48 ≤ b && b ≤ 57
